@@ -1,7 +1,6 @@
 (** Reader half of the metadata round trip (C04):
       meta_ok m -> float_oracle_ok pf64 pf32 m -> extract_all pf64 pf32 fdiv (tree_of m) = Ok (reader_view m)
-    The lookup of data3D goes through [descendants()], so the proof shows that nothing in front of
-    it in document order carries that name; images2D is looked up among the children of e57Root. *)
+    e57Root is the root element; data3D and images2D are looked up among its children. *)
 From Coq Require Import Strings.String.
 From Coq Require Import List Bool NArith ZArith Lia.
 From E57 Require Import Base.Prelude Model.Meta Model.MetaFile Model.XmlTree Model.XmlExtract
@@ -12,99 +11,11 @@ Import ListNotations.
 Local Notation "'B' s" := (ltac:(let v := eval vm_compute in (bytes_of_string s%string) in exact v))
   (at level 0, s at level 0, only parsing).
 
-(** * No element named [nm] in a subtree *)
-Definition nf (nm : xstr) (n : xnode) : Prop := find (has_tag_name nm) (descendants n) = None.
-
-Lemma find_flat_none nm l : Forall (nf nm) l -> find (has_tag_name nm) (flat_map descendants l) = None.
-Proof. induction 1 as [|x l Hx Hl IH]; cbn [flat_map]; [reflexivity|]. rewrite find_app, Hx. exact IH. Qed.
-
-Lemma nf_text nm t : nf nm (XText t).
-Proof. reflexivity. Qed.
-
-Lemma nf_elem nm xn attrs sc ch :
-  xstr_eqb (xn_local xn) nm = false -> Forall (nf nm) ch -> nf nm (XElem xn attrs sc ch).
-Proof.
-  intros Hn Hc. unfold nf. rewrite descendants_elem. cbn [find has_tag_name]. rewrite Hn.
-  apply find_flat_none. exact Hc.
-Qed.
-
-Lemma nf_lines nm l : Forall (nf nm) l -> Forall (nf nm) (lines l).
-Proof.
-  intros H. unfold lines. constructor; [apply nf_text|].
-  induction H as [|x l Hx Hl IH]; cbn [flat_map app]; [constructor|].
-  constructor; [exact Hx|]. constructor; [apply nf_text|exact IH].
-Qed.
-
-Lemma nf_el nm sc name attrs ch :
-  xstr_eqb name nm = false -> Forall (nf nm) ch -> nf nm (el sc name attrs (lines ch)).
-Proof. intros Hn Hc. apply nf_elem; [exact Hn|apply nf_lines; exact Hc]. Qed.
-
-Lemma nf_leaf nm sc name attrs t : xstr_eqb name nm = false -> nf nm (el sc name attrs [XText t]).
-Proof. intros Hn. apply nf_elem; [exact Hn|]. constructor; [apply nf_text|constructor]. Qed.
-
-Lemma nf_empty nm sc name attrs : xstr_eqb name nm = false -> nf nm (el sc name attrs []).
-Proof. intros Hn. apply nf_elem; [exact Hn|constructor]. Qed.
-
 Lemma Forall_opt1 {A} (P : xnode -> Prop) (f : A -> xnode) o : (forall v, P (f v)) -> Forall P (opt1 f o).
 Proof. intros H. destruct o; cbn; constructor; auto. Qed.
 
 Lemma Forall_map_nf {A} (P : xnode -> Prop) (f : A -> xnode) l : (forall v, In v l -> P (f v)) -> Forall P (map f l).
 Proof. intros H. apply Forall_forall. intros x Hx. apply in_map_iff in Hx. destruct Hx as (v & <- & Hv). auto. Qed.
-
-(** structural decomposition; leaves are closed by computation on the literal names *)
-Ltac nf_tac :=
-  repeat first
-    [ apply nf_text
-    | apply Forall_nil
-    | apply Forall_cons
-    | apply Forall_app; split
-    | apply Forall_opt1; intro
-    | apply nf_leaf; reflexivity
-    | apply nf_empty; reflexivity
-    | apply nf_el; [reflexivity|] ].
-
-Section Names.
-Variable sc : list xnsdecl.
-Variable nm : xstr.
-
-Lemma nf_string name s : xstr_eqb name nm = false -> nf nm (t_string sc name s).
-Proof. intros H. apply nf_leaf. exact H. Qed.
-Lemma nf_float name f : xstr_eqb name nm = false -> nf nm (t_float sc name f).
-Proof. intros H. apply nf_leaf. exact H. Qed.
-Lemma nf_int name z : xstr_eqb name nm = false -> nf nm (t_int sc name z).
-Proof. intros H. apply nf_leaf. exact H. Qed.
-End Names.
-
-(** nothing inside a date is called data3D *)
-Section NoImages2D.
-Variable exts : list extension.
-Let sc := scope_of exts.
-
-Lemma nf_date_time nm name d :
-  xstr_eqb name nm = false -> xstr_eqb (B"dateTimeValue") nm = false -> xstr_eqb (B"isAtomicClockReferenced") nm = false ->
-  nf nm (t_date_time sc name d).
-Proof.
-  intros H1 H2 H3. unfold t_date_time, t_struct, t_float. apply nf_el; [exact H1|].
-  repeat constructor; apply nf_leaf; assumption.
-Qed.
-
-End NoImages2D.
-
-(** * Document level *)
-Lemma dffind_cons_hit p x r : p x = true -> dffind p (x :: r) = Some x.
-Proof.
-  intros H. unfold dffind. cbn [flat_map app]. rewrite find_app.
-  destruct x; cbn [descendants find] in *; rewrite ?H; reflexivity.
-Qed.
-
-Lemma dffind_cons_skip nm x r : nf nm x -> dffind (has_tag_name nm) (x :: r) = dffind (has_tag_name nm) r.
-Proof.
-  intros H. unfold dffind. cbn [flat_map app]. rewrite !find_app. rewrite H. reflexivity.
-Qed.
-
-Lemma dffind_opt1_skip nm {A} (f : A -> xnode) o :
-  (forall v, nf nm (f v)) -> dffind (has_tag_name nm) (opt1 f o) = None.
-Proof. intros H. destruct o; cbn [opt1]; [rewrite dffind_cons_skip by apply H|]; reflexivity. Qed.
 
 Lemma extensions_of_scope_of exts : extensions_of_scope (scope_of exts) = exts.
 Proof.
@@ -112,11 +23,6 @@ Proof.
   rewrite app_nil_r. induction exts as [|e l IH]; [reflexivity|]. cbn [map flat_map xns_prefix xns_uri app].
   rewrite IH. destruct e; reflexivity.
 Qed.
-
-Lemma find_descendants_struct sc nm name ch :
-  find (has_tag_name nm) (descendants (t_struct sc name ch)) =
-  if xstr_eqb name nm then Some (t_struct sc name ch) else dffind (has_tag_name nm) ch.
-Proof. exact (find_desc_struct sc nm name ch). Qed.
 
 Section Main.
 Variables pf64 pf32 : xstr -> option N.
@@ -156,24 +62,15 @@ Proof.
   destruct m as [r exts pcs ims]. cbn [fm_root fm_extensions fm_pointclouds fm_images] in *.
   set (sc := scope_of exts).
   set (root := t_root sc exts (mkFileMeta r exts pcs ims)).
-  assert (Hroot : find_doc_desc (B"e57Root") (tree_of (mkFileMeta r exts pcs ims)) = Some root) by reflexivity.
-  assert (Hd3 : find_doc_desc (B"data3D") (tree_of (mkFileMeta r exts pcs ims)) =
-                Some (t_vector sc (B"data3D") true (map (t_pointcloud sc exts) pcs))).
-  { unfold find_doc_desc, doc_descendants, tree_of. cbn [xd_children flat_map fm_extensions]. rewrite app_nil_r.
-    unfold t_root. cbn [fm_root fm_pointclouds fm_images]. rewrite find_descendants_struct. eval_ifs.
-    rewrite !dffind_app.
-    do 4 (rewrite dffind_cons_skip by (apply nf_leaf; reflexivity)).
-    change (dffind (has_tag_name (B"data3D")) []) with (@None xnode). cbv beta iota.
-    rewrite !dffind_opt1_skip by (intro; first [apply nf_leaf; reflexivity | apply nf_date_time; reflexivity]).
-    rewrite dffind_cons_hit by reflexivity. reflexivity. }
-  assert (Hi2 : images2d_node (tree_of (mkFileMeta r exts pcs ims)) =
-                Some (t_vector sc (B"images2D") true (map (t_image sc) ims))).
-  { unfold images2d_node. rewrite Hroot. cbn [opt_case]. unfold root, t_root, t_struct.
-    cbn [fm_root fm_pointclouds fm_images]. fc. }
+  assert (Hroot : e57_root (tree_of (mkFileMeta r exts pcs ims)) = Ok (Some root)) by reflexivity.
+  assert (Hd3 : find_child (B"data3D") root = Some (t_vector sc (B"data3D") true (map (t_pointcloud sc exts) pcs)))
+    by (unfold root, t_root, t_struct; cbn [fm_root fm_pointclouds fm_images]; fc).
+  assert (Hi2 : find_child (B"images2D") root = Some (t_vector sc (B"images2D") true (map (t_image sc) ims)))
+    by (unfold root, t_root, t_struct; cbn [fm_root fm_pointclouds fm_images]; fc).
   unfold extract_all.
   (* root *)
   assert (Er : root_from_document pf64 (tree_of (mkFileMeta r exts pcs ims)) = Ok (reader_root r)).
-  { unfold root_from_document, req_node. rewrite Hroot. cbn [opt_case]. unfold root, t_root, t_struct.
+  { unfold root_from_document, req_node. rewrite Hroot. cbn [res_bind opt_case]. unfold root, t_root, t_struct.
     cbn [fm_root fm_pointclouds fm_images].
     match goal with |- context[req_string ?n (B"formatName")] =>
       let E := fresh in eassert (E : find_child (B"formatName") n = _) by fc; rewrite (req_string_of sc _ _ _ _ E); clear E end.
@@ -183,7 +80,8 @@ Proof.
       let E := fresh in eassert (E : find_child nm n = _) by fc; rewrite (req_i64_of sc _ _ _ _ E) by assumption; clear E end.
     repeat step_string sc. repeat step_date_time sc pf64. reflexivity. }
   rewrite Er. cbn [res_bind].
-  unfold pointclouds_from_document, images_from_document, vec_from_document. rewrite Hd3, Hi2. cbn [opt_case].
+  unfold pointclouds_from_document, images_from_document, vec_from_document. rewrite Hroot. cbn [res_bind opt_case].
+  rewrite Hd3, Hi2. cbn [opt_case].
   subst root sc. rewrite !vector_children by (intro; reflexivity).
   rewrite pointclouds_of_list, images_of_list by assumption. cbn [res_bind].
   unfold extensions_from_document, tree_of. cbn [root_element xd_children find is_element fm_extensions].
